@@ -470,3 +470,12 @@ Print Assumptions xls_sheet_partial.
 Print Assumptions xls_duplicate_header_refuted.
 Print Assumptions xls_header_only_refuted.
 Print Assumptions xls_sheet_partial_nonvacuous.
+
+(* a sheet's table does not depend on the sheets before it (no state carried across sheets) *)
+Theorem xls_sheets_independent : forall before g after,
+  nth (length before) (xls_workbook_tables (before ++ g :: after)) [] = xls_sheet_table g.
+Proof.
+  intros before g after. unfold xls_workbook_tables. rewrite map_app. cbn [map].
+  rewrite app_nth2; rewrite map_length; [|apply Nat.le_refl]. rewrite Nat.sub_diag. reflexivity.
+Qed.
+Print Assumptions xls_sheets_independent.
